@@ -184,6 +184,15 @@ claim('C18',
       'hexagonal magnets, NOSYM); |R_k|<=1000; equalities to 1e-8 with the exact rationals of the library floats.',
       'DESIGN.md 3/C18')
 
+claim('C22',
+      'Bounded symbolic verification: crystals and mesh divisions enumerated (even/odd/mixed; cubic, hexagonal, skewed lattices), real '
+      'fullkptmesh/reducekptmesh/inBZ run; the invariant periodic FUNCTION is symbolic (every coefficient of sum_s c_s sum_{R in shell} '
+      'cos(k.R) a solver real): z3 decides that the reduced weighted average equals the full-mesh average for all coefficient vectors; '
+      'weights positive and summing to one, every point inside the Brillouin zone (library test and an independent one).',
+      'The mesh routines have no continuous input, so they run concretely on the enumerated cases; the universally quantified part is the '
+      'function family (10 shells). One defect found and fixed (points left outside the BZ on skewed lattices).',
+      'DESIGN.md 3/C22')
+
 na('C01', 'exact oracle is an infinite-state pair Markov chain reached through Brillouin-zone quadrature, LAPACK and hyp1f1/expi; '
           'agreement only to integration accuracy: no algebraic statement a solver can decide (DESIGN 5)')
 na('C06', 'identities hold only for the true lattice Green function of the omega0 network (numerical k-space integration); '
